@@ -2,11 +2,16 @@
    STATUS: certified per-input validation by the extracted same_stereo (spec/RoundTrip.v:
    tag xor parity of the written neighbour order; marks per bond end); the universal theorem
    needs C03's round trip and is not proved.  Proved here: the parity bookkeeping that
-   _should_invert_chirality relies on. *)
+   _should_invert_chirality relies on, and - for ALL accepted SMILES, tables and flags - the '/' '\' marks of CHAIN
+   bonds at the level of symbols (C04_chain_marks_faithful_partial; proofs/EncStereo.v): the tree bond into the k-th atom
+   stores the mark written before the k-th atom token; kekulize never touches a mark; the atom symbol printed for that
+   atom is prefixed with '=' or '#', or - a single bond - with exactly that mark, and smiles_to_bond2 of the prefix (what
+   the decoder's symbol reader computes) gives the same mark back.  Marks on ring-closure bonds and tetrahedral tags are
+   not covered by this theorem. *)
 From Coq Require Import String List ZArith NArith Bool.
 Import ListNotations.
 From Selfies Require Import Base Generated Atoms Grammar Decoder PySet Matching Smiles Kekulize Encoder
-  IndexSpec IndexCode Reader RoundTrip EncoderFacts PureFacts.
+  IndexSpec IndexCode Reader RoundTrip EncoderFacts PureFacts EncAttr EncStereo.
 Local Open Scope string_scope.
 
 Definition C04_full_statement : Prop :=
@@ -20,4 +25,20 @@ Theorem C04_adjacent_swap_flips_parity_partial : forall l1 a b l2, a <> b ->
   Nat.odd (Encoder.inversions (l1 ++ a :: b :: l2)%list) = negb (Nat.odd (Encoder.inversions (l1 ++ b :: a :: l2)%list)).
 Proof. exact inversions_swap_adjacent. Qed.
 
+(* marks of chain bonds survive into the symbols, and are what the decoder's reader gets back from them *)
+Theorem C04_chain_marks_faithful_partial : forall T smiles strict attribute x maps ts,
+  encoder T smiles strict attribute = Ok (x, maps) -> tokenize_smiles smiles = Ok ts ->
+  exists m tss mss,
+    x = join (lit ".") (map (@concat N) tss) /\
+    maps = filter (fun a => match am_token a with [] => false | _ => true end) (concat mss) /\
+    Forall2 (fun toks ms => Walked (mark_back ts) m toks (map ent ms)) tss mss.
+Proof. exact encoder_marks_faithful. Qed.
+
+Example C04_chain_marks_example :
+  match encoder default_constraints (lit "F/C=C\Cl") true false with
+  | Ok (x, _) => str_eqb x (lit "[F][/C][=C][\Cl]")
+  | Err _ => false end = true.
+Proof. vm_compute. reflexivity. Qed.
+
 Print Assumptions C04_adjacent_swap_flips_parity_partial.
+Print Assumptions C04_chain_marks_faithful_partial.
